@@ -180,6 +180,26 @@ def flatten(uses):
 
 
 # ------------------------------------------------------------------------- normal form of compact()
+def clean_default(prog):
+    """The characters util.clean() deletes when called without a second argument, read from its signature
+    (None when the default is not a constant string)."""
+    fn = prog.mods['stdnum.util'].funcs.get('clean')
+    if fn is None or len(fn.args.args) < 2 or not fn.args.defaults:
+        return None
+    d = fn.args.defaults[-1] if len(fn.args.defaults) >= 1 and len(fn.args.args) - len(fn.args.defaults) <= 1 else None
+    if isinstance(d, ast.Constant) and isinstance(d.value, str):
+        return d.value
+    if isinstance(d, ast.Name):
+        for st in prog.mods['stdnum.util'].tree.body:
+            if isinstance(st, ast.Assign) and len(st.targets) == 1 and isinstance(st.targets[0], ast.Name) and st.targets[0].id == d.id:
+                try:
+                    v = ast.literal_eval(st.value)
+                except (ValueError, SyntaxError):
+                    return None
+                return v if isinstance(v, str) else None
+    return None
+
+
 def compact_nf(prog, modname, fname='compact', depth=0):
     """Normal form of a compact()-like function, or None when its shape is not one of the modelled
     families.  NF = ('nf', frozenset(deletechars), frozenset(flag ops), tuple(ordered ops), tuple(prefix rules))
@@ -214,7 +234,9 @@ def compact_nf(prog, modname, fname='compact', depth=0):
         if isinstance(e, ast.Call):
             rr = prog.resolve_expr(tmod, e.func)
             if rr == ('func', 'stdnum.util', 'clean') and e.args and src(e.args[0]) == p:
-                d = ''
+                d = clean_default(prog)
+                if d is None and len(e.args) < 2:
+                    return None
                 if len(e.args) > 1:
                     if not isinstance(e.args[1], ast.Constant):
                         return None
